@@ -19,14 +19,16 @@ def form_to_spec(f):
     return {"t": f["t"], "v": f["v"]}
 
 
-def render_catalog(seeds, operands, small, forms=None, scalars=None, stride=1, extra=""):
+def render_catalog(seeds, operands, small, forms=None, scalars=None, stride=1, extra="", iforms=None):
     forms = forms if forms is not None else catalog.slice_forms()[:1]
+    iforms = iforms if iforms is not None else catalog.index_forms()[:1]
     scalars = scalars if scalars is not None else catalog.scalars()[:1]
     lines = ["---- MODULE Catalog ----", "EXTENDS Integers, Sequences"]
     lines.append("SeedLeaves == " + tla.to_tla(list(seeds)))
     lines.append("OperandLeaves == " + tla.to_tla(list(operands)))
     lines.append("SmallLeaves == " + tla.to_tla(list(small)))
     lines.append("SliceForms == " + tla.to_tla([form_to_spec(f) for f in forms]))
+    lines.append("IndexForms == " + tla.to_tla([form_to_spec(f) for f in iforms]))
     lines.append(f"SliceStride == {stride}")
     lines.append("Scalars == " + tla.to_tla(list(scalars)))
     if extra:
@@ -50,7 +52,7 @@ def run_model(tag, runs, workers=16, timeout=3000):
         wd = tla.make_build_dir(f"{tag}-{i}")
         try:
             cat = render_catalog(r["seeds"], r["operands"], r["small"], r.get("forms"), r.get("scalars"),
-                                 r.get("stride", 1))
+                                 r.get("stride", 1), iforms=r.get("iforms"))
             args = []
             if r.get("simulate"):
                 args = ["-simulate", f"num={r['simulate']}", "-depth", str(r["lvl"] + 1),
@@ -151,3 +153,44 @@ def sample_cases(cases, n=5):
     from .build import short
     step = max(1, len(cases) // n)
     return [short(c["t"]) for c in cases[::step][:n]]
+
+
+def run_generic(prop, tier, plan, observe, assumptions, rule, keep=lambda c: True):
+    """Common run(): TLC enumeration per plan, parallel replay with `observe`, triage, evidence."""
+    t0 = time.time()
+    cases, stats = run_model(prop, plan(tier, common.seed()))
+    cases = [c for c in cases if keep(c)]
+    res = common.pmap(observe, cases)
+    viol = [v for r in res for v in r]
+    nontriv = {json.dumps(c["t"], sort_keys=True) for c in cases if nontrivial(c)}
+    cov = {
+        "states": stats["distinct"], "transitions": stats["states"],
+        "traces_validated_against_impl": len(cases),
+        "evaluations": len(cases), "distinct_nontrivial": len(nontriv),
+        "rule": rule,
+        "samples": sample_cases(cases, 6),
+        "exhaustive": False,
+        "tlc_runs": stats["tlc_runs"],
+        "checker_cmd": "tlc MC_Ops.tla (spec/MC_Ops.tla, Expr.tla, Mat.tla, PyIndex.tla, Annot.tla, generated Catalog.tla)",
+    }
+    return common.finish(prop, tier, t0, cov, viol, assumptions)
+
+
+def replay_generic(prop, observe, path):
+    v = json.load(open(path))
+    res = observe(v["replay"])
+    for r in res:
+        print(f"VIOLATION property={prop} replay={path}\n  clause={r.clause} case={r.case} :: {r.detail}")
+    new, seen, known = common.triage(prop, res)
+    print(f"replayed 1 case: {len(res)} violation(s), {len(new)} not covered by known findings")
+    return 1 if new else 0
+
+
+ASSUMPTIONS = [
+    "NumPy backend only; jax/torch code paths are not observed",
+    "backend shim (harness/shim.py: vmap, linear_transpose, sparse_csr, to_np, PolyFn autodiff) is trusted",
+    "expected matrices are exact Gaussian rationals computed by TLC from Expr.tla!Denote; the harness compares "
+    "cola's floating-point output with tolerance 1e-4 (single) / 1e-9 (double) relative to the largest entry",
+    "products of TLC's exact matrix with the harness's integer right-hand sides are formed in the harness "
+    "(a plain complex128 matmul)",
+]
